@@ -339,7 +339,7 @@ func getFontLocked(spec string) *sfnt.Font {
 		for i := 0; i < n; i++ {
 			g := cff.NewGlyph(fmt.Sprintf("big%d", i), float64(500+i%7))
 			g.MoveTo(0, 0)
-			for j := 0; j < 300; j++ {
+			for j := 0; j < 450; j++ {
 				g.LineTo(float64((j*37+i*11)%900), float64((j*53+i*5)%700))
 			}
 			o.Glyphs = append(o.Glyphs, g)
@@ -1224,7 +1224,7 @@ func bigCases(c *Ctx, variant int) {
 		_, err := header.Write(w, sc, tabs)
 		return err
 	})
-	if variant == 0 || c.Tier == "thorough" {
+	if variant == 0 { // a fixed, small number of large cases whatever the tier
 		// tables just over 64 KiB through header.Write
 		t64 := map[string][]byte{"big1": make([]byte, 1<<16+1), "big2": make([]byte, 70001+variant), "head": make([]byte, 54)}
 		bigCountCases(c, fmt.Sprintf("scaler=%d tabs=%s:%d,%s:%d,%s:54", sc, hx([]byte("big1")), 1<<16+1, hx([]byte("big2")), 70001+variant,
@@ -1233,7 +1233,7 @@ func bigCases(c *Ctx, variant int) {
 			return err
 		})
 		// a CFF font whose encoded size exceeds 64 KiB: (*cff.Font).Write directly, and the sfnt writers
-		cspec := fmt.Sprintf("bigcff:%d:simple", r.Range(75, 90)+20*variant)
+		cspec := fmt.Sprintf("bigcff:%d:simple", r.Range(100, 120)+20*variant)
 		cfont := getFont(cspec)
 		bigCountCases(c, fmt.Sprintf("font=%s api=CFF", cspec), func(w io.Writer) error { return cfont.AsCFF().Write(w) })
 		for _, api := range []string{"Write", "CFFPDF"} {
@@ -1445,6 +1445,7 @@ func getTable(spec string) (tag string, data []byte) {
 	} else {
 		tag = spec[strings.LastIndexByte(spec, '#')+1:]
 	}
+	tag = strings.ReplaceAll(tag, "_", " ") // case lines are split at spaces: "CFF " is written CFF_
 	fontMu.Lock()
 	d, ok := tableCache[spec]
 	fontMu.Unlock()
@@ -1751,7 +1752,23 @@ func fileCases(c *Ctx, fspec string, data []byte) {
 			}
 		}
 	}
-	for _, ks := range blocks(0, total) {
+	dks := blocks(0, total)
+	if total > 40000 {
+		// a large file: header.Read (V, above) is swept for every k; the complete sfnt.Read with its
+		// sixteen kinds of sources (the streams copy k bytes each) at table boundaries and 3000 random k
+		dks = sampleKs(c.Rng, ents, hdrLen, total, 3000)
+		for _, ks := range blocks(0, total) {
+			for _, mode := range []string{"trunc", "fault"} {
+				if everyHread {
+					out := c.Case(Verdict, "faults.hread", fmt.Sprintf("hdr=%s len=%d mode=%s ks=%s", hdr, total, mode, ks), true)
+					countVerdicts(c, "header.Read_"+mode, out)
+				}
+			}
+		}
+		everyHread = false
+		c.Stat("fault_points", "file_sampled_sfnt.Read:"+bucket(total))
+	}
+	for _, ks := range dks {
 		for _, mode := range []string{"trunc", "fault"} {
 			if !everyHread {
 				break
@@ -1762,15 +1779,14 @@ func fileCases(c *Ctx, fspec string, data []byte) {
 		args := fmt.Sprintf("font=%s lastend=%d len=%d ks=%s", fspec, lastEnd, total, ks)
 		out := c.Case(Direct, "faults.trunc", args, true)
 		countVerdicts(c, "sfnt.Read_truncated", out)
-		var a int
-		fmt.Sscan(ks, &a)
-		if i := strings.IndexAny(out, "AP"); i >= 0 && len(out) <= 7*faultBlock {
-			c.Case(Direct, "faults.trunc", fmt.Sprintf("font=%s lastend=%d len=%d ks=%d", fspec, lastEnd, total, a+i/7), true)
+		kl := parseKs(Fields{"ks": ks})
+		if i := strings.IndexAny(out, "AP"); i >= 0 && len(out) == 7*len(kl) {
+			c.Case(Direct, "faults.trunc", fmt.Sprintf("font=%s lastend=%d len=%d ks=%d", fspec, lastEnd, total, kl[i/7]), true)
 		}
 		out = c.Case(Direct, "faults.reader", args, true)
 		countVerdicts(c, "sfnt.Read_failing_source", out)
-		if i := strings.IndexAny(out, "AP"); i >= 0 && len(out) <= 9*faultBlock {
-			c.Case(Direct, "faults.reader", fmt.Sprintf("font=%s lastend=%d len=%d ks=%d", fspec, lastEnd, total, a+i/9), true)
+		if i := strings.IndexAny(out, "AP"); i >= 0 && len(out) == 9*len(kl) {
+			c.Case(Direct, "faults.reader", fmt.Sprintf("font=%s lastend=%d len=%d ks=%d", fspec, lastEnd, total, kl[i/9]), true)
 		}
 	}
 	c.Stat("fault_points", "file:"+bucket(total))
@@ -1963,7 +1979,8 @@ func synthCases(c *Ctx, i int) {
 		case 3:
 			p := 12 + 16*r.Intn(n) + 8
 			if p+8 <= len(h) {
-				copy(h[p:], []byte{0xff, 0xff, 0xff, 0xf0, 0, 0, 0, byte(r.Range(0x10, 0x40))})
+				// offset + length wraps around 2^32; with 0x10 the end is exactly 0 and the probe offset -1
+				copy(h[p:], []byte{0xff, 0xff, 0xff, 0xf0, 0, 0, 0, byte(Pick(r, []int{0x10, 0x10, 0x11, r.Range(0x10, 0x40)}))})
 			}
 		}
 		ks := sampleKs(r, nil, hdrLen, total, 40)
@@ -2038,7 +2055,7 @@ func areaFaults(c *Ctx) {
 		},
 	)
 	if c.Tier == "thorough" {
-		raws := []string{"raw:goregular", "raw:gomono", "apple:raw:gosmallcaps"}
+		raws := []string{"raw:goregular", "apple:raw:gosmallcaps"}
 		for _, name := range raws {
 			name := name
 			jobs = append(jobs, func() {
@@ -2057,7 +2074,7 @@ func areaFaults(c *Ctx) {
 		switch i % 4 {
 		case 0:
 			base := "go:" + Pick(r, []string{"goregular", "gomono", "goitalic", "gosmallcaps"})
-			spec := fmt.Sprintf("sub:%d:%d:%s", r.Range(2, 60), seed(), base)
+			spec := fmt.Sprintf("sub:%d:%d:%s", r.Range(2, 30), seed(), base)
 			apis := []string{Pick(r, []string{"Write", "TTPDF", "TTPDFnil"})}
 			jobs = append(jobs, func() { fontCases(c, spec, apis, true) })
 		case 1:
@@ -2095,7 +2112,7 @@ func areaFaults(c *Ctx) {
 	dspecs := []string{ttf + "#head", ttf + "#maxp", ttf + "#OS/2", ttf + "#post", "simple|Write#OS/2", "simple|Write#post",
 		"simple|Write#maxp", "syn:kern", "syn:GDEF", "syn:GPOS", "go:goregular|Write#GSUB"}
 	if c.Tier == "thorough" {
-		dspecs = append(dspecs, "go:goregular|Write#post", "go:goregular|Write#OS/2", "go:gomono|Write#head", "simple|Write#CFF ",
+		dspecs = append(dspecs, "go:goregular|Write#post", "go:goregular|Write#OS/2", "go:gomono|Write#head", "simple|Write#CFF_",
 			"raw:goregular#OS/2", "raw:goregular#post", "raw:goregular#head", "raw:goregular#maxp")
 	}
 	for _, sp := range dspecs {
